@@ -577,7 +577,10 @@ pub fn gen_trace(p: &mut Prng) -> Vec<(u64, bool)> {
         1 | 2 => p.range(2, 12),
         _ => p.range(5, 60),
     };
-    let style = p.below(5);
+    let style = p.below(6);
+    if style == 5 {
+        return gen_const_rate_trace(p);
+    }
     let mut t: u64 = if p.chance(1, 4) { p.below(50_000_000) } else { 0 };
     let mut out = Vec::new();
     let mut dir = p.chance(2, 3);
@@ -604,6 +607,26 @@ pub fn gen_trace(p: &mut Prng) -> Vec<(u64, bool)> {
         out.push((t, dir));
     }
     out
+}
+
+/// constant-rate trace whose period divides 100 ms and that lasts longer than one second (the
+/// parse window and the bottleneck window see exactly full windows)
+pub fn gen_const_rate_trace(p: &mut Prng) -> Vec<(u64, bool)> {
+    let period = *p.pick(&[10_000_000u64, 20_000_000, 25_000_000, 50_000_000, 100_000_000]);
+    let n = (1_200_000_000 / period + p.below(20)).min(150);
+    let t0 = if p.chance(1, 3) { p.below(period) } else { 0 };
+    let pattern = p.below(4);
+    (0..n)
+        .map(|i| {
+            let dir = match pattern {
+                0 => true,
+                1 => false,
+                2 => i % 2 == 0,
+                _ => i % 3 != 0,
+            };
+            (t0 + i * period, dir)
+        })
+        .collect()
 }
 
 const DELAYS: &[u64] = &[0, 1_000, 1_000_000, 10_000_000, 250_000_000];
@@ -842,12 +865,97 @@ pub fn gen_timers(p: &mut Prng, id: String) -> SimCase {
     c
 }
 
+fn pad_state(bypass: bool, replace: bool, to_us: f64, next: Vec<Trans>) -> State {
+    let mut s = State::new(enum_map! { Event::PaddingSent => next.clone(), _ => vec![] });
+    s.action = Some(Action::SendPadding { bypass, replace, timeout: konst(to_us), limit: None });
+    s
+}
+
+/// hand-made situations: same-instant timers on one side and on both sides, replace-UpdateTimer
+/// re-issued with the same expiry, overlapping blocks that do not extend, blocking on both sides
+/// with different bypass flags
+pub fn gen_scenario(p: &mut Prng, id: String) -> SimCase {
+    let to = *p.pick(&[0.0, 1.0, 1000.0, 5000.0, 20_000.0]);
+    let start = State::new(enum_map! { Event::NormalSent => tr1(1), Event::TunnelRecv => tr1(1), _ => vec![] });
+    let mut delay_ns = *p.pick(DELAYS);
+    let (mc, ms): (Vec<Machine>, Vec<Machine>) = match p.below(6) {
+        0 => {
+            // two (or three) machines on one side whose actions are due at the same instant
+            let k = p.range(2, 3) as usize;
+            let ms: Vec<Machine> = (0..k)
+                .map(|i| plain_machine(vec![start.clone(), pad_state(i % 2 == 0, p.chance(1, 2), to, tr1(0))]))
+                .collect();
+            if p.chance(1, 2) { (ms, vec![]) } else { (vec![], ms) }
+        }
+        1 => {
+            // two machines on one side whose internal timers expire at the same instant
+            let dur = *p.pick(&[0.0, 1000.0, 30_000.0]);
+            let mk = |rp: bool| {
+                let mut s1 = State::new(enum_map! { Event::TimerEnd => tr1(2), _ => vec![] });
+                s1.action = Some(Action::UpdateTimer { replace: rp, duration: konst(dur), limit: None });
+                plain_machine(vec![start.clone(), s1, pad_state(false, false, to, tr1(0))])
+            };
+            (vec![mk(false), mk(true)], vec![])
+        }
+        2 => {
+            // client and server actions due at the same instant (delay 0: the server sees the packet at once)
+            delay_ns = 0;
+            let c = plain_machine(vec![start.clone(), pad_state(p.chance(1, 2), false, to, tr1(0))]);
+            let sv = plain_machine(vec![start.clone(), pad_state(p.chance(1, 2), false, to, tr1(0))]);
+            (vec![c], vec![sv])
+        }
+        3 => {
+            // replace=true UpdateTimer re-issued at the same instant with the same expiry
+            let dur = *p.pick(&[0.0, 500.0, 10_000.0]);
+            let mut s1 = State::new(enum_map! { Event::TimerBegin => tr1(2), Event::TimerEnd => tr1(3), _ => vec![] });
+            s1.action = Some(Action::UpdateTimer { replace: true, duration: konst(dur), limit: None });
+            let mut s2 = State::new(enum_map! { Event::TimerBegin => tr1(0), Event::TimerEnd => tr1(3), _ => vec![] });
+            s2.action = Some(Action::UpdateTimer { replace: true, duration: konst(dur), limit: None });
+            let m = plain_machine(vec![start.clone(), s1, s2, pad_state(false, false, to, tr1(0))]);
+            if p.chance(1, 2) { (vec![m], vec![]) } else { (vec![], vec![m]) }
+        }
+        4 => {
+            // overlapping blocks from two machines where the second does not extend the first
+            let long = *p.pick(&[50_000.0, 300_000.0]);
+            let short = *p.pick(&[0.0, 1000.0, 10_000.0]);
+            let b1 = p.chance(1, 2);
+            let mut a1 = State::new(enum_map! { Event::BlockingEnd => tr1(0), _ => vec![] });
+            a1.action = Some(Action::BlockOutgoing { bypass: b1, replace: false, timeout: konst(0.0), duration: konst(long), limit: None });
+            let a = plain_machine(vec![start.clone(), a1]);
+            let b0 = State::new(enum_map! { Event::BlockingBegin => tr1(1), _ => vec![] });
+            let mut bb1 = State::new(enum_map! { Event::BlockingBegin => tr1(2), Event::BlockingEnd => tr1(0), _ => vec![] });
+            bb1.action = Some(Action::BlockOutgoing { bypass: !b1, replace: false, timeout: konst(to), duration: konst(short), limit: None });
+            let b = plain_machine(vec![b0, bb1, pad_state(true, p.chance(1, 2), 2000.0, vec![Trans(2, 0.5), Trans(0, 0.5)])]);
+            if p.chance(1, 2) { (vec![a, b], vec![]) } else { (vec![], vec![a, b]) }
+        }
+        _ => {
+            // blocking on both sides with different bypass flags, bypass padding on both sides
+            let mk = |bypass: bool| {
+                let mut s1 = State::new(enum_map! { Event::BlockingBegin => tr1(2), _ => vec![] });
+                s1.action = Some(Action::BlockOutgoing { bypass, replace: false, timeout: konst(0.0), duration: konst(100_000.0), limit: None });
+                plain_machine(vec![start.clone(), s1, pad_state(true, false, 3000.0, vec![Trans(2, 0.75)])])
+            };
+            (vec![mk(true)], vec![mk(false)])
+        }
+    };
+    let trace = if p.chance(1, 4) { gen_const_rate_trace(p) } else { gen_trace(p) };
+    let mut c = SimCase { id, kind: "scenario".into(), mc, ms, trace, delay_ns, runs: vec![] };
+    let mut main = base_run("main", p, None);
+    main.fpc = 0.0;
+    main.fbc = 0.0;
+    main.fps = 0.0;
+    main.fbs = 0.0;
+    expand_runs(&mut c, main, p);
+    c
+}
+
 pub fn gen_kind(kind: &str, p: &mut Prng, id: String) -> Option<SimCase> {
     Some(match kind {
         "general" => gen_general(p, id),
         "nomachines" => gen_nomachines(p, id),
         "blocking" => gen_blocking(p, id),
         "timers" => gen_timers(p, id),
+        "scenario" => gen_scenario(p, id),
         _ => return None,
     })
 }
